@@ -125,9 +125,15 @@ type Plan struct {
 	// Start: the start-state family (startstate.go): a client that was never
 	// started / whose Start failed / that is stopped twice.
 	Start *StartPlan `json:",omitempty"`
+	// Pile: the pile-up family (pileup.go): Stop while many verified
+	// cfheaders answers are outstanding and their writer is not draining.
+	Pile *PilePlan `json:",omitempty"`
 }
 
 func (p Plan) Point() string {
+	if p.Pile != nil {
+		return p.Pile.Where
+	}
 	if strings.HasPrefix(p.State, ptPrefix) {
 		return strings.TrimPrefix(p.State, ptPrefix)
 	}
